@@ -332,6 +332,14 @@ fn compile(
     let sparse_table: SparseScriptTable = {
         SparseScriptTable::from_fields(meta).map_err(|e| ctx.emitter.emit(e))?
     };
+    // (the table is dense in the file; an absurd index or 'table_len' must not be taken literally)
+    const MAX_TABLE_LEN: u32 = 1 << 20;
+    if sparse_table.table_len.value > MAX_TABLE_LEN {
+        return Err(emit(error!(
+            message("script table is too large"),
+            primary(sparse_table.table_len, "table would have {} entries", sparse_table.table_len.value),
+        )));
+    }
     let dense_table = sparse_table.densify();
     let script_table_indices_by_name = get_script_table_indices_by_name(&dense_table);
 
@@ -408,7 +416,7 @@ fn unsupported(span: &crate::pos::Span) -> Diagnostic {
 }
 
 fn sparse_table_implicit_len(table: &IndexMap<Sp<u32>, ScriptTableEntry>) -> u32 {
-    table.keys().copied().max().map_or(0, |max| max.value + 1)
+    table.keys().copied().max().map_or(0, |max| max.value.saturating_add(1))
 }
 
 fn get_script_table_indices_by_name(
